@@ -18,7 +18,11 @@ func ProcessInput(jsonldText string, debug bool, receiver *chan e.Event) (any, e
 	dispatchEvent(e.NewEvent(e.InputDataParsingDone), receiver)
 
 	dispatchEvent(e.NewEvent(e.InputDataNormalizationStart), receiver)
-	normalizedInput := Index(Normalize(input))
+	flattened, err := normalize(input)
+	if err != nil {
+		return nil, err
+	}
+	normalizedInput := Index(flattened)
 	dispatchEvent(e.NewEvent(e.InputDataNormalizationDone), receiver)
 
 	return normalizedInput, nil
